@@ -134,6 +134,22 @@ def noBareOperand : Expr → Bool
     | _ => true
 end
 
+def isDfScoped (df : Bytes) : Node → Bool
+  | .expr (.mk l .equals _ _ _) => isDfCol df l
+  | _ => false
+
+mutual
+/-- explicitly fielded terms are never re-scoped: the value of a term fielded with another name is not `df:…` -/
+def noRescopedNode (df : Bytes) : Node → Bool
+  | .expr e => noRescoped df e
+  | .bound mn mx _ => !isDfScoped df mn && !isDfScoped df mx
+  | _ => true
+def noRescoped (df : Bytes) : Expr → Bool
+  | .mk l o r _ _ =>
+    (if operatesOnColumn o && !isDfCol df l then !isDfScoped df r else true) &&
+      noRescopedNode df l && noRescopedNode df r
+end
+
 /-- … nor as the whole query -/
 def noBareTerm (e : Expr) : Bool := !isBareTermNode (.expr e) && noBareOperand e
 
